@@ -48,7 +48,7 @@ def c07(tier):
         # values; the register trace of every later evaluation must start from that state and the code compiled
         # for later forms must not depend on the failed one
         q = tier == 'quick'
-        mcov.update(mach.run(verdict, wd, [('fail', 12 if q else 600)], vlib.seed(), maxsteps=6000))
+        mcov.update(mach.run(verdict, wd, [('fail', 12 if q else 250)], vlib.seed(), maxsteps=6000))
 
     return props.cek_property(
         'C07', tier, plan, relevant,
